@@ -4,7 +4,7 @@
 (* the scratch directory of every TLC run with the catalog measured from   *)
 (* the concrete item texts of that run.  Fields: see Extract.tla.          *)
 XCatDef == <<
-  [id |-> "tc", kind |-> "tc", w |-> <<18, 0>>, ls |-> TRUE, msgs |-> <<>>],
-  [id |-> "expr", kind |-> "cons", w |-> <<11>>, ls |-> FALSE,
+  [id |-> "tc", kind |-> "tc", tag |-> "A", w |-> <<18, 0>>, ls |-> TRUE, msgs |-> <<>>],
+  [id |-> "expr", kind |-> "cons", tag |-> "none", w |-> <<11>>, ls |-> FALSE,
    msgs |-> <<[off |-> 0, fn |-> "_", m |-> "a", own |-> TRUE]>>] >>
 =============================================================================
